@@ -25,6 +25,7 @@ import (
 	"github.com/getlantern/zenodb/planner"
 	"github.com/getlantern/zenodb/rpc"
 	rpcserver "github.com/getlantern/zenodb/rpc/server"
+	"github.com/getlantern/zenodb/simhook"
 	"github.com/getlantern/zenodb/web"
 	"github.com/gorilla/mux"
 	"golang.org/x/crypto/acme/autocert"
@@ -595,6 +596,12 @@ func (s *Server) clientsFor(serversString string, serverOverridesString string, 
 				tlsConn := tls.Client(conn, clientTLSConfig)
 				return tlsConn, tlsConn.Handshake()
 			},
+		}
+
+		if simhook.Enabled {
+			if dialer := simhook.ServerDialer(s, dest); dialer != nil {
+				clientOpts.Dialer = dialer
+			}
 		}
 
 		client, dialErr := rpc.Dial(s.Capture, clientOpts)
